@@ -1,12 +1,679 @@
-//! C14 — not built yet (stub).
+//! C14 — the transaction pool always holds a jointly valid, fee-paying, mineable set.
 
 use crate::engine::*;
-use serde_json::Value;
+use crate::world::gen::*;
+use crate::world::poolkit::*;
+use crate::world::*;
+use crate::{ensure, fail};
+use grin_core::core::hash::Hashed;
+use grin_core::core::transaction::{self, Weighting};
+use grin_core::core::{Transaction};
+use grin_core::global;
+use grin_pool::types::TxSource;
+use proptest::prelude::*;
+use serde_derive::{Deserialize, Serialize};
+use serde_json::{json, Value};
+use std::collections::{BTreeMap, BTreeSet};
 
-pub fn run(_ctx: &Ctx) -> HResult<()> {
-	Err(HarnessError("C14 check not built yet".into()))
+#[derive(Clone, Debug, Serialize, Deserialize)]
+pub enum Submit {
+	/// spend UTXO outputs (picks), n outputs
+	Fresh { ins: Vec<u16>, n_out: u8, fee_class: u8, shift: u8, kern: u8 },
+	/// spend an output of a pooled (tx or stem) transaction, plus optionally a UTXO output
+	Child { parent_pick: u16, second_parent: Option<u16>, utxo_in: Option<u16>, fee_class: u8 },
+	/// spend an input that a pooled transaction already spends
+	Conflict { victim_pick: u16, fee_class: u8 },
+	/// resubmit a pooled transaction unchanged
+	Duplicate { pick: u16 },
+	/// submit the aggregate of two pooled transactions
+	AggregateOfPooled { a: u16, b: u16 },
+	/// aggregate of a pooled transaction and a fresh one
+	AggregateWithFresh { a: u16, ins: Vec<u16> },
+	/// fee below the minimum for its weight
+	LowFee { ins: Vec<u16> },
+	/// heavier than a block can carry
+	OverWeight { ins: Vec<u16> },
 }
 
-pub fn replay(_ctx: &Ctx, _part: &str, _case: &Value) -> PResult {
+#[derive(Clone, Debug, Serialize, Deserialize)]
+pub enum Op {
+	Submit(Submit, bool),
+	/// connect a block carrying the picked pool transactions (and optionally a conflicting spend)
+	Block { picks: Vec<u16>, conflict: Option<u16>, dt: u16 },
+	/// connect the block the miner would build from prepare_mineable_transactions
+	Mine,
+	/// a fork of `len` empty blocks from `depth` blocks below the head (wins when len > depth)
+	Fork { depth: u8, len: u8 },
+}
+
+#[derive(Clone, Debug, Serialize, Deserialize)]
+pub struct Case {
+	pub max_pool: u8,
+	pub ops: Vec<Op>,
+}
+
+fn submit() -> impl Strategy<Value = Submit> {
+	let picks = || prop::collection::vec(any::<u16>(), 1..=2);
+	prop_oneof![
+		10 => (picks(), 1u8..=3, 0u8..4, 0u8..4, 0u8..3).prop_map(|(ins, n_out, fee_class, shift, kern)| Submit::Fresh { ins, n_out, fee_class, shift, kern }),
+		7 => (any::<u16>(), prop::option::weighted(0.3, any::<u16>()), prop::option::weighted(0.3, any::<u16>()), 0u8..4).prop_map(|(parent_pick, second_parent, utxo_in, fee_class)| Submit::Child { parent_pick, second_parent, utxo_in, fee_class }),
+		3 => (any::<u16>(), 0u8..4).prop_map(|(victim_pick, fee_class)| Submit::Conflict { victim_pick, fee_class }),
+		2 => any::<u16>().prop_map(|pick| Submit::Duplicate { pick }),
+		2 => (any::<u16>(), any::<u16>()).prop_map(|(a, b)| Submit::AggregateOfPooled { a, b }),
+		2 => (any::<u16>(), picks()).prop_map(|(a, ins)| Submit::AggregateWithFresh { a, ins }),
+		2 => picks().prop_map(|ins| Submit::LowFee { ins }),
+		1 => picks().prop_map(|ins| Submit::OverWeight { ins }),
+	]
+}
+
+pub fn case_strategy(max_ops: usize) -> impl Strategy<Value = Case> {
+	(
+		prop_oneof![Just(3u8), Just(5u8), Just(50u8)],
+		prop::collection::vec(
+			prop_oneof![
+				14 => (submit(), prop::bool::weighted(0.3)).prop_map(|(s, stem)| Op::Submit(s, stem)),
+				3 => (prop::collection::vec(any::<u16>(), 0..3), prop::option::weighted(0.3, any::<u16>()), 1u16..300).prop_map(|(picks, conflict, dt)| Op::Block { picks, conflict, dt }),
+				2 => Just(Op::Mine),
+				1 => (1u8..=3, 1u8..=4).prop_map(|(depth, len)| Op::Fork { depth, len }),
+			],
+			4..=max_ops,
+		),
+	)
+		.prop_map(|(max_pool, ops)| Case { max_pool, ops })
+}
+
+const FEE_BASE: u64 = 1000;
+
+struct Env {
+	cb: ChainBox,
+	w: World,
+	head: usize,
+	pool: Pool,
+	/// OutRefs of outputs created by transactions we submitted (to know their keys)
+	known_specs: Vec<TxSpec>,
+	next_key: u32,
+}
+
+fn fee_for(spec_weight: u64, class: u8) -> u64 {
+	match class {
+		0 => spec_weight * FEE_BASE,           // exactly the minimum
+		1 => spec_weight * FEE_BASE + 1,
+		2 => spec_weight * FEE_BASE * 3,
+		_ => spec_weight * FEE_BASE * 10 + 7,
+	}
+}
+
+impl Env {
+	fn utxo_spendable(&self) -> Vec<OutRef> {
+		// mature for the next block, not already spent by a pooled tx
+		let maturity = global::coinbase_maturity();
+		let m = &self.w.nodes[self.head].model;
+		let h = m.height + 1;
+		let pooled_inputs = self.pool_inputs();
+		let mut v: Vec<(u64, OutRef)> = m
+			.utxo
+			.iter()
+			.filter(|(_, e)| !e.features.is_coinbase() || e.height + maturity <= h)
+			.filter(|(c, _)| !pooled_inputs.contains(*c))
+			.filter_map(|(c, e)| self.w.refs.get(c).map(|r| (e.height, *r)))
+			.collect();
+		v.sort_by(|a, b| b.0.cmp(&a.0).then(a.1.cmp(&b.1)));
+		v.into_iter().map(|x| x.1).collect()
+	}
+
+	fn pooled(&self) -> Vec<Transaction> {
+		let mut v = self.pool.txpool.all_transactions();
+		v.extend(self.pool.stempool.all_transactions());
+		v
+	}
+
+	fn pool_inputs(&self) -> BTreeSet<Vec<u8>> {
+		let mut s = BTreeSet::new();
+		for tx in self.pooled() {
+			let ins: Vec<grin_core::core::CommitWrapper> = tx.inputs().into();
+			for i in ins {
+				s.insert(i.commitment().0.to_vec());
+			}
+		}
+		s
+	}
+
+	/// outputs created by pooled transactions and not spent by another pooled one
+	fn pool_outputs_unspent(&self) -> Vec<OutRef> {
+		let ins = self.pool_inputs();
+		let mut v = vec![];
+		for tx in self.pooled() {
+			for o in tx.outputs() {
+				let c = o.commitment().0.to_vec();
+				if !ins.contains(&c) {
+					if let Some(r) = self.w.refs.get(&c) {
+						v.push(*r);
+					}
+				}
+			}
+		}
+		v.sort();
+		v.dedup();
+		v
+	}
+
+	fn fresh_outputs(&mut self, total: u64, n: usize) -> Vec<OutRef> {
+		let mut outs = vec![];
+		let mut left = total;
+		for i in 0..n {
+			let amt = if i + 1 == n { left } else { (AMT_MENU[i % 5]).min(left.saturating_sub((n - i - 1) as u64)).max(1) };
+			left -= amt;
+			self.next_key += 1;
+			outs.push(OutRef {
+				amount: amt,
+				key: 2000 + self.next_key,
+				cb: false,
+			});
+			if left == 0 {
+				break;
+			}
+		}
+		outs
+	}
+
+	fn spec_from(&mut self, inputs: Vec<OutRef>, n_out: usize, fee_class: u8, shift: u8, kern: u8) -> Option<TxSpec> {
+		if inputs.is_empty() {
+			return None;
+		}
+		let total: u64 = inputs.iter().map(|o| o.amount).sum();
+		let nk = if kern == 1 { 2 } else { 1 };
+		let weight = Transaction::weight_by_iok(inputs.len() as u64, n_out as u64, nk as u64);
+		// the minimum applies to the SHIFTED fee (fee >> fee_shift)
+		let shift = if kern == 1 { 0 } else { shift };
+		let fee = fee_for(weight, fee_class) << shift;
+		if total <= fee + n_out as u64 {
+			return None;
+		}
+		let outputs = self.fresh_outputs(total - fee, n_out);
+		let nk_real = nk;
+		let weight_real = Transaction::weight_by_iok(inputs.len() as u64, outputs.len() as u64, nk_real as u64);
+		// outputs may have collapsed: recompute the fee so that the class still holds
+		let fee2 = fee_for(weight_real, fee_class) << shift;
+		let outputs = if fee2 != fee {
+			if total <= fee2 + outputs.len() as u64 {
+				return None;
+			}
+			let n = outputs.len();
+			self.fresh_outputs(total - fee2, n)
+		} else {
+			outputs
+		};
+		let fee = fee2;
+		let h = self.w.nodes[self.head].model.height + 1;
+		let kernels = match kern {
+			1 => vec![KernelSpec::plain(fee - 1), KernelSpec::plain(1)],
+			2 => vec![KernelSpec {
+				kind: KKind::HeightLocked,
+				fee,
+				shift,
+				lock: h,
+				excess_tag: 0,
+			}],
+			_ => vec![KernelSpec {
+				kind: KKind::Plain,
+				fee,
+				shift,
+				lock: 0,
+				excess_tag: 0,
+			}],
+		};
+		let spec = TxSpec {
+			inputs,
+			outputs,
+			kernels,
+			zero_offset: false,
+		};
+		for o in spec.inputs.iter().chain(spec.outputs.iter()) {
+			self.w.note(o);
+		}
+		Some(spec)
+	}
+}
+
+/// the invariant of the statement, checked after every operation
+fn invariant(env: &Env, when: &str) -> PResult {
+	let chain = env.cb.c();
+	let model = &env.w.nodes[env.head].model;
+	let txs = env.pool.txpool.all_transactions();
+	let stem = env.pool.stempool.all_transactions();
+	// (5) every pooled tx individually
+	for tx in txs.iter().chain(stem.iter()) {
+		ensure!(tx.validate(Weighting::AsTransaction).is_ok(), "pooled-tx-invalid", "{}: a pooled transaction fails standalone validation", when);
+		ensure!(
+			tx.shifted_fee() >= tx.weight() * global::get_accept_fee_base(),
+			"pooled-tx-below-min-fee",
+			"{}: pooled transaction pays shifted fee {} < weight {} x base {}",
+			when,
+			tx.shifted_fee(),
+			tx.weight(),
+			global::get_accept_fee_base()
+		);
+		ensure!(tx.weight() <= global::max_tx_weight(), "pooled-tx-over-weight", "{}: pooled transaction weight {} over the limit", when, tx.weight());
+	}
+	for (name, set) in [("txpool", txs.clone()), ("txpool+stempool", { let mut v = txs.clone(); v.extend(stem.clone()); v })] {
+		if set.is_empty() {
+			continue;
+		}
+		// (2) no input shared
+		let mut seen: BTreeSet<Vec<u8>> = BTreeSet::new();
+		let mut produced: BTreeSet<Vec<u8>> = BTreeSet::new();
+		for tx in &set {
+			for o in tx.outputs() {
+				produced.insert(o.commitment().0.to_vec());
+			}
+		}
+		for tx in &set {
+			let ins: Vec<grin_core::core::CommitWrapper> = tx.inputs().into();
+			for i in ins {
+				let c = i.commitment().0.to_vec();
+				ensure!(seen.insert(c.clone()), "pool-double-spend", "{}: two {} transactions spend the same output {}", when, name, commit_hex(&i.commitment()));
+				// (3) exists in UTXO or produced by another pooled tx
+				ensure!(
+					model.utxo.contains_key(&c) || produced.contains(&c),
+					"pool-input-missing",
+					"{}: a {} transaction spends {} which is neither unspent at the head (h={}) nor created in the pool",
+					when,
+					name,
+					commit_hex(&i.commitment()),
+					model.height
+				);
+			}
+		}
+		// (1),(4) jointly valid on top of the head
+		let agg = transaction::aggregate(&set).map_err(|e| Fail::new("pool-aggregate-fails", format!("{}: aggregate of {} failed: {:?}", when, name, e)))?;
+		ensure!(agg.validate(Weighting::NoLimit).is_ok(), "pool-aggregate-invalid", "{}: aggregate of {} does not validate", when, name);
+		let r = chain.validate_tx(&agg);
+		ensure!(r.is_ok(), "pool-not-applicable-to-head", "{}: aggregate of {} cannot be applied on the chain head: {:?}", when, name, r.err().map(|e| err_name(&e)));
+	}
 	Ok(())
+}
+
+fn connect(env: &mut Env, block: grin_core::core::Block, parent: usize, model: Model, spent_hint: Vec<OutRef>) -> Result<bool, Fail> {
+	let prev_head = env.head;
+	let res = env.cb.c().process_block(block.clone(), opts(PowMode::Real));
+	match res {
+		Ok(tip) => {
+			let built = Built {
+				block: block.clone(),
+				parent,
+				verdict: Ok(model.clone()),
+				neg: Neg::None,
+				spent_now: spent_hint,
+				n_spends: block.inputs().len(),
+				recreated: false,
+				cut_through: false,
+				tags: vec![],
+			};
+			let n = env.w.push(&built, model);
+			if tip.is_some() {
+				let reorg = parent != prev_head;
+				env.head = n;
+				on_block_accepted(&mut env.pool, &block, reorg).map_err(|e| Fail::new("reconcile-error", format!("{:?}", e)))?;
+				return Ok(true);
+			}
+			Ok(false)
+		}
+		Err(e) => Err(Fail::new("valid-block-rejected", format!("block h={} rejected: {}", block.header.height, err_name(&e)))),
+	}
+}
+
+pub fn run_case(ctx: &Ctx, case: &Case, counting: bool) -> PResult {
+	init_thread();
+	global::set_local_accept_fee_base(FEE_BASE);
+	let ev = &ctx.ev;
+	let cb = ChainBox::open(&ctx.scratch_dir("c14")).map_err(|e| Fail::new("init-fresh", e))?;
+	let w = World::new(&cb.genesis, true);
+	let pool = new_pool(cb.arc(), FEE_BASE, case.max_pool as usize, case.max_pool as usize, global::max_block_weight());
+	let mut env = Env {
+		cb,
+		w,
+		head: 0,
+		pool,
+		known_specs: vec![],
+		next_key: 0,
+	};
+	// 8 blocks so that several coinbases are mature
+	for _ in 0..8 {
+		let raw = RawBlock {
+			parent: 0,
+			cb_key: 0,
+			txs: vec![],
+			dt: 60,
+			diff: 1,
+			neg: Neg::None,
+			neg_pick: 0,
+		};
+		let built = env.w.build(env.cb.c(), &raw, env.head).map_err(|e| Fail::new("builder", e))?;
+		let m = built.verdict.clone().map_err(|e| Fail::new("harness:model", format!("{:?}", e)))?;
+		connect(&mut env, built.block.clone(), built.parent, m, vec![])?;
+	}
+	let (mut dependent, mut confirmed_part, mut evicted, mut reorged, mut mined) = (false, false, false, false, 0u32);
+	for (i, op) in case.ops.iter().enumerate() {
+		let header = env.cb.c().head_header().map_err(|e| Fail::new("head-err", format!("{:?}", e)))?;
+		match op {
+			Op::Submit(s, stem) => {
+				let before = env.pool.total_size();
+				let utxo = env.utxo_spendable();
+				let pool_outs = env.pool_outputs_unspent();
+				let pooled = env.pooled();
+				let take = |v: &Vec<OutRef>, picks: &[u16]| -> Vec<OutRef> {
+					let mut out = vec![];
+					for p in picks {
+						if let Some(o) = pick(v, *p) {
+							if !out.contains(o) {
+								out.push(*o);
+							}
+						}
+					}
+					out
+				};
+				// (tx, must_be_refused, label)
+				let built: Option<(Transaction, Option<bool>, &str)> = match s {
+					Submit::Fresh { ins, n_out, fee_class, shift, kern } => env
+						.spec_from(take(&utxo, ins), *n_out as usize, *fee_class, *shift, *kern)
+						.map(|sp| (assemble(&sp).0, Some(false), "fresh")),
+					Submit::Child { parent_pick, second_parent, utxo_in, fee_class } => {
+						let mut ins = take(&pool_outs, &[*parent_pick]);
+						if let Some(p2) = second_parent {
+							for o in take(&pool_outs, &[*p2]) {
+								if !ins.contains(&o) {
+									ins.push(o);
+								}
+							}
+						}
+						if let Some(u) = utxo_in {
+							ins.extend(take(&utxo, &[*u]));
+						}
+						if ins.is_empty() || pool_outs.is_empty() {
+							None
+						} else {
+							dependent = true;
+							env.spec_from(ins, 1, *fee_class, 0, 0).map(|sp| (assemble(&sp).0, Option::None, "child"))
+						}
+					}
+					Submit::Conflict { victim_pick, fee_class } => {
+						// an input (from the UTXO) that a pooled tx spends
+						let model = &env.w.nodes[env.head].model;
+						let mut victims: Vec<OutRef> = vec![];
+						// inputs spent by PUBLIC pool transactions (a conflict with a stem-only
+						// transaction is legitimately resolved in favour of the public pool)
+						let _ = &pooled;
+						for tx in &env.pool.txpool.all_transactions() {
+							let ins: Vec<grin_core::core::CommitWrapper> = tx.inputs().into();
+							for c in ins {
+								let cbts = c.commitment().0.to_vec();
+								if model.utxo.contains_key(&cbts) {
+									if let Some(r) = env.w.refs.get(&cbts) {
+										victims.push(*r);
+									}
+								}
+							}
+						}
+						victims.sort();
+						victims.dedup();
+						match pick(&victims, *victim_pick).copied() {
+							Some(v) => env.spec_from(vec![v], 1, *fee_class, 0, 0).map(|sp| (assemble(&sp).0, Some(true), "conflict")),
+							None => None,
+						}
+					}
+					Submit::Duplicate { pick: p } => {
+						let t = env.pool.txpool.all_transactions();
+						pick(&t, *p).cloned().map(|tx| (tx, Some(true), "duplicate"))
+					}
+					Submit::AggregateOfPooled { a, b } => {
+						let t = env.pool.txpool.all_transactions();
+						match (pick(&t, *a), pick(&t, *b)) {
+							(Some(x), Some(y)) if x.hash() != y.hash() => transaction::aggregate(&[x.clone(), y.clone()]).ok().map(|tx| (tx, Option::None, "aggregate-of-pooled")),
+							_ => None,
+						}
+					}
+					Submit::AggregateWithFresh { a, ins } => {
+						let t = env.pool.txpool.all_transactions();
+						let fresh = env.spec_from(take(&utxo, ins), 1, 2, 0, 0).map(|sp| assemble(&sp).0);
+						match (pick(&t, *a), fresh) {
+							(Some(x), Some(f)) => transaction::aggregate(&[x.clone(), f]).ok().map(|tx| (tx, Option::None, "aggregate-with-fresh")),
+							_ => None,
+						}
+					}
+					Submit::LowFee { ins } => {
+						let inputs = take(&utxo, ins);
+						if inputs.is_empty() {
+							None
+						} else {
+							let total: u64 = inputs.iter().map(|o| o.amount).sum();
+							let weight = Transaction::weight_by_iok(inputs.len() as u64, 1, 1);
+							let fee = (weight * FEE_BASE - 1).max(1);
+							let outs = env.fresh_outputs(total - fee, 1);
+							let spec = TxSpec {
+								inputs,
+								outputs: outs,
+								kernels: vec![KernelSpec::plain(fee)],
+								zero_offset: false,
+							};
+							for o in spec.inputs.iter().chain(spec.outputs.iter()) {
+								env.w.note(o);
+							}
+							Some((assemble(&spec).0, Some(true), "low-fee"))
+						}
+					}
+					Submit::OverWeight { ins } => {
+						// 12 outputs: weight > max_tx_weight (250 - 24)
+						let inputs = take(&utxo, ins);
+						if inputs.is_empty() {
+							None
+						} else {
+							env.spec_from(inputs, 12, 2, 0, 0).map(|sp| (assemble(&sp).0, Some(true), "over-weight"))
+						}
+					}
+				};
+				let Some((tx, must_refuse, label)) = built else { continue };
+				let res = env.pool.add_to_pool(TxSource::Broadcast, tx.clone(), *stem, &header);
+				if counting {
+					ev.class(&format!("submit:{}:{}", label, if res.is_ok() { "admitted" } else { "refused" }));
+				}
+				match must_refuse {
+					Some(true) => ensure!(res.is_err(), format!("pool-admitted:{}", label), "op {}: pool admitted a {} transaction", i, label),
+					Some(false) => {
+						// a fresh valid, fee-paying tx on unspent outputs: only capacity may refuse it
+						if let Err(e) = &res {
+							let s = format!("{:?}", e);
+							ensure!(s.contains("OverCapacity"), "pool-refused-valid", "op {}: pool refused a valid fresh transaction: {}", i, s);
+						}
+					}
+					None => {}
+				}
+				if env.pool.total_size() < before || (res.is_ok() && env.pool.total_size() == before && !*stem && before as u8 >= case.max_pool) {
+					evicted = true;
+				}
+			}
+			Op::Block { picks, conflict, dt } => {
+				let t = env.pool.txpool.all_transactions();
+				let mut chosen: Vec<Transaction> = vec![];
+				for p in picks {
+					if let Some(tx) = pick(&t, *p) {
+						if !chosen.iter().any(|c| c.hash() == tx.hash()) {
+							chosen.push(tx.clone());
+						}
+					}
+				}
+				// a block must be valid on its own: keep only a subset whose inputs are all in the UTXO or created within the subset
+				let model = env.w.nodes[env.head].model.clone();
+				loop {
+					let produced: BTreeSet<Vec<u8>> = chosen.iter().flat_map(|tx| tx.outputs().iter().map(|o| o.commitment().0.to_vec()).collect::<Vec<_>>()).collect();
+					let before = chosen.len();
+					chosen.retain(|tx| {
+						let ins: Vec<grin_core::core::CommitWrapper> = tx.inputs().into();
+						ins.iter().all(|c| {
+							let b = c.commitment().0.to_vec();
+							model.utxo.contains_key(&b) || produced.contains(&b)
+						})
+					});
+					if chosen.len() == before {
+						break;
+					}
+				}
+				if let Some(cp) = conflict {
+					// a transaction (not from the pool) spending an input some pooled tx spends
+					let mut victims: Vec<OutRef> = vec![];
+					for tx in &t {
+						if chosen.iter().any(|c| c.hash() == tx.hash()) {
+							continue;
+						}
+						let ins: Vec<grin_core::core::CommitWrapper> = tx.inputs().into();
+						for c in ins {
+							let b = c.commitment().0.to_vec();
+							if model.utxo.contains_key(&b) {
+								if let Some(r) = env.w.refs.get(&b) {
+									victims.push(*r);
+								}
+							}
+						}
+					}
+					victims.sort();
+					victims.dedup();
+					if let Some(v) = pick(&victims, *cp).copied() {
+						if let Some(sp) = env.spec_from(vec![v], 1, 2, 0, 0) {
+							chosen.push(assemble(&sp).0);
+						}
+					}
+				}
+				let total_w: u64 = chosen.iter().map(|t| t.weight()).sum();
+				while !chosen.is_empty() && chosen.iter().map(|t| t.weight()).sum::<u64>() + 24 > global::max_block_weight() {
+					chosen.pop();
+				}
+				let _ = total_w;
+				let prev = env.w.nodes[env.head].block.header.clone();
+				let cbkey = (prev.height as u32 + 1) * 4;
+				let fees: u64 = chosen.iter().map(|t| t.fee()).sum();
+				let (cbref, _, _) = LIB.coinbase(fees, cbkey);
+				env.w.note(&cbref);
+				let b = make_block(env.cb.c(), &prev, &chosen, cbkey, *dt as i64, PowMode::Real).map_err(|e| Fail::new("builder", format!("op {}: {}", i, e)))?;
+				let m = model.apply(&b).map_err(|e| Fail::new("harness:model", format!("op {}: block of pool txs invalid in model: {:?}", i, e)))?;
+				if !chosen.is_empty() && env.pool.total_size() > chosen.len() {
+					confirmed_part = true;
+				}
+				let parent = env.head;
+				connect(&mut env, b, parent, m, vec![])?;
+			}
+			Op::Mine => {
+				let txs = env.pool.prepare_mineable_transactions().map_err(|e| Fail::new("prepare-mineable-error", format!("op {}: {:?}", i, e)))?;
+				let prev = env.w.nodes[env.head].block.header.clone();
+				let cbkey = (prev.height as u32 + 1) * 4 + 1;
+				let fees: u64 = txs.iter().map(|t| t.fee()).sum();
+				let (cbref, _, _) = LIB.coinbase(fees, cbkey);
+				env.w.note(&cbref);
+				let b = make_block(env.cb.c(), &prev, &txs, cbkey, 60, PowMode::Real).map_err(|e| Fail::new("mineable-set-not-assemblable", format!("op {}: the mineable set does not assemble into a block: {}", i, e)))?;
+				let wgt = b.body.weight();
+				ensure!(wgt <= global::max_block_weight(), "mineable-set-over-weight", "op {}: block from the mineable set weighs {} > {}", i, wgt, global::max_block_weight());
+				let model = env.w.nodes[env.head].model.clone();
+				let m = match model.apply(&b) {
+					Ok(m) => m,
+					Err(e) => fail!("mineable-set-invalid-in-model", "op {}: block from the mineable set is invalid on the head: {:?}", i, e),
+				};
+				let parent = env.head;
+				match connect(&mut env, b, parent, m, vec![]) {
+					Ok(_) => {}
+					Err(f) => fail!("mineable-set-rejected", "op {}: the chain rejected the block built from prepare_mineable_transactions(): {}", i, f.msg),
+				}
+				mined += 1;
+				if counting {
+					ev.class_n("mined_txs", txs.len() as u64);
+				}
+			}
+			Op::Fork { depth, len } => {
+				// empty blocks from an ancestor; the last one may win and trigger reorg handling
+				let mut first = true;
+				for _ in 0..*len {
+					let raw = RawBlock {
+						parent: if first { 100 + *depth } else { 1 },
+						cb_key: 2,
+						txs: vec![],
+						dt: 30,
+						diff: 1,
+						neg: Neg::None,
+						neg_pick: 0,
+					};
+					first = false;
+					let h = env.head;
+					let built = env.w.build(env.cb.c(), &raw, h).map_err(|e| Fail::new("builder", e))?;
+					let Ok(m) = built.verdict.clone() else { break };
+					if env.w.node_of(&built.block.hash()).is_some() {
+						break; // the same fork block was already delivered by an earlier Fork op
+					}
+					let was = env.head;
+					if connect(&mut env, built.block.clone(), built.parent, m, vec![])? && built.parent != was {
+						reorged = true;
+					}
+				}
+			}
+		}
+		invariant(&env, &format!("after op {} ({})", i, match op {
+			Op::Submit(..) => "submit",
+			Op::Block { .. } => "block",
+			Op::Mine => "mine",
+			Op::Fork { .. } => "fork",
+		}))?;
+	}
+	if counting {
+		ev.eval();
+		if dependent {
+			ev.class("histories_with_dependent_chain");
+		}
+		if evicted {
+			ev.class("histories_with_eviction");
+		}
+		if reorged {
+			ev.class("histories_with_reorg");
+		}
+		if confirmed_part {
+			ev.class("histories_with_partial_confirmation");
+		}
+		if mined > 0 {
+			ev.class("histories_with_mining");
+		}
+		if dependent && (confirmed_part || evicted || reorged) {
+			ev.nontrivial(&(case.max_pool, confirmed_part, evicted, reorged, mined.min(3), case.ops.len()));
+		}
+	}
+	drop(env.pool);
+	let _ = BTreeMap::<u8, u8>::new();
+	Ok(())
+}
+
+pub fn run(ctx: &Ctx) -> HResult<()> {
+	init_global();
+	let ev = &ctx.ev;
+	ev.rule("histories over a real chain + TransactionPool wired like the node (reconcile_block on head changes, reconcile_reorg_cache on reorgs): submissions (fresh, children and grandchildren of pooled transactions incl. two pooled parents, conflicting, duplicate, aggregates of pooled transactions, below minimum fee, over weight, with fee shift, stem or fluff), blocks carrying arbitrary subsets of pool transactions or conflicting spends, mining from prepare_mineable_transactions, winning and losing forks, small capacities to force eviction; after every operation: no two pooled transactions share an input, every input is unspent at the head or created in the pool, the aggregate of the public pool (and of public+stem) validates and passes Chain::validate_tx, every pooled transaction pays the minimum fee, respects the weight limit and validates alone; the mined block is within the weight limit and accepted by the chain; non-trivial = history with a dependent chain in the pool and (partial confirmation or eviction or reorg); distinct by (capacity, those flags, mined count, length)");
+	ev.assume("accept_fee_base set to 1000 for these cases (thread-local); block weight limit 250 (AutomatedTesting)");
+	if let Some((case, f)) = pbt_proc(ctx, "history", ctx.n(320, 6000), 16) {
+		ctx.report("history", &f.sig, case, &f.msg);
+	}
+	let s = sample_one(ctx.derive_seed("sample", 0), &case_strategy(6));
+	ev.sample("history", || serde_json::to_value(&s).unwrap());
+	let _ = json!(0);
+	Ok(())
+}
+
+pub fn part(ctx: &Ctx, part: &str, seed: u64, cases: u32) -> Option<(Value, Fail)> {
+	init_global();
+	match part {
+		"history" => run_part(ctx, seed, cases, &case_strategy(if ctx.quick() { 22 } else { 30 }), |c, counting| run_case(ctx, c, counting)),
+		_ => None,
+	}
+}
+
+pub fn replay(ctx: &Ctx, part: &str, case: &Value) -> PResult {
+	init_global();
+	match part {
+		"history" => {
+			let c: Case = serde_json::from_value(case.clone()).map_err(|e| Fail::new("harness:replay-parse", e.to_string()))?;
+			run_case(ctx, &c, false)
+		}
+		_ => Ok(()),
+	}
 }
